@@ -55,6 +55,11 @@ theorem subPerm_sent {l l' : Link Env} (hA : l'.toA = l.toA) (hB : l'.toB = l.to
   rw [ids_eq, ids_eq, hA, hB]
   exact SubPerm.of_sublist ((hs.append_right _).append_right _)
 
+theorem subPerm_queues {l l' : Link Env} (hs : l'.sent.Sublist l.sent) (hA : l'.toA.Sublist l.toA) (hB : l'.toB.Sublist l.toB) :
+    SubPerm (C08.ids l') (C08.ids l) := by
+  rw [ids_eq, ids_eq]
+  exact SubPerm.of_sublist (((hs.map _).append (hA.map _)).append (hB.map _))
+
 theorem releaseOne_id (now : Nat) (s : Sent Env) : (releaseOne now s).id = s.id := by
   unfold releaseOne; cases s.status <;> rfl
 
@@ -128,15 +133,15 @@ theorem idsOK_gstep (cfg : Cfg) {l : Link Env} {H : List (Sent Env)} (h : IdsOK 
   | ctl c =>
     cases c with
     | partition =>
-      exact idsOK_of_subPerm h (by simpa [gstep, Ctl.fn] using subPerm_sent (l := l) (l' := l.explicitPartition.1) rfl rfl (List.nil_sublist _)) (Nat.le_refl _)
+      obtain ⟨_, _, es, _, _, _, _, sA, sB, _, en, _⟩ := Link.explicitPartition_fields l
+      have hsp : SubPerm (C08.ids l.explicitPartition.1) (C08.ids l) :=
+        subPerm_queues (by rw [es]; exact List.nil_sublist _) sA sB
+      exact idsOK_of_subPerm h (by simpa [gstep, Ctl.fn] using hsp) (Nat.le_of_eq en.symm)
     | partitionOneway s d =>
-      have e1 : (l.partitionOneway s d).1.toA = l.toA := by unfold Link.partitionOneway; simp only; split <;> rfl
-      have e2 : (l.partitionOneway s d).1.toB = l.toB := by unfold Link.partitionOneway; simp only; split <;> rfl
-      have e3 : (l.partitionOneway s d).1.sent = l.sent.filter (fun x => x.src != s) := by
-        unfold Link.partitionOneway; rfl
-      have e4 : (l.partitionOneway s d).1.nextId = l.nextId := by unfold Link.partitionOneway; simp only; split <;> rfl
-      exact idsOK_of_subPerm h (by simpa [gstep, Ctl.fn] using subPerm_sent (l := l) e1 e2 (by rw [e3]; exact List.filter_sublist.map _))
-        (Nat.le_of_eq e4.symm)
+      obtain ⟨_, _, es, _, _, _, _, sA, sB, _, en, _⟩ := Link.partitionOneway_fields l s d
+      have hsp : SubPerm (C08.ids (l.partitionOneway s d).1) (C08.ids l) :=
+        subPerm_queues (by rw [es]; exact List.filter_sublist) sA sB
+      exact idsOK_of_subPerm h (by simpa [gstep, Ctl.fn] using hsp) (Nat.le_of_eq en.symm)
     | repair =>
       exact idsOK_of_subPerm h (by simpa [gstep, Ctl.fn] using subPerm_sent (l := l) (l' := l.explicitRepair) rfl rfl (List.Sublist.refl _)) (Nat.le_refl _)
     | repairOneway s d =>
@@ -144,7 +149,8 @@ theorem idsOK_gstep (cfg : Cfg) {l : Link Env} {H : List (Sent Env)} (h : IdsOK 
         unfold Link.repairOneway; split <;> exact ⟨rfl, rfl⟩
       exact idsOK_of_subPerm h (by simp [gstep, Ctl.fn, e.1]; exact SubPerm.refl _) (Nat.le_of_eq e.2.symm)
     | hold =>
-      exact idsOK_of_subPerm h (by simp [gstep, Ctl.fn, C08.ids_hold]; exact SubPerm.refl _) (Nat.le_refl _)
+      have en : l.hold.nextId = l.nextId := by unfold Link.hold; split <;> rfl
+      exact idsOK_of_subPerm h (by simpa [gstep, Ctl.fn] using SubPerm.of_perm (C08.ids_hold l)) (Nat.le_of_eq en.symm)
     | release =>
       exact idsOK_of_subPerm h (by simp [gstep, Ctl.fn, C08.ids_release]; exact SubPerm.refl _) (Nat.le_refl _)
     | manual i =>
@@ -159,7 +165,7 @@ theorem idsOK_grun (cfg : Cfg) {l : Link Env} {H : List (Sent Env)} (h : IdsOK l
     have := ih (idsOK_gstep cfg h o)
     simpa [List.append_assoc] using this
 
-theorem idsOK_init (a b now : Nat) : IdsOK ({ a := a, b := b, now := now } : Link Env) [] :=
+theorem idsOK_init (a b now : Nat) (fm : Bool := false) : IdsOK ({ a := a, b := b, now := now, fixMatured := fm } : Link Env) [] :=
   ⟨by simp [C08.ids], by simp [C08.ids]⟩
 
 end TV.LW
